@@ -155,7 +155,7 @@ pub fn violation_json(prop: &str, v: &Violation) -> Value {
 }
 
 /// Run the plan; write evidence; print verdict lines; return exit code.
-pub fn execute(plan: Plan, tier: &str, seed: i64, verif_dir: &str) -> i32 {
+pub fn execute(plan: Plan, tier: &str, seed: i64, verif_dir: &str, out_dir: &str) -> i32 {
     let t0 = Instant::now();
     let prop = plan.property.clone();
     let known = load_known(&format!("{}/known_findings.json", verif_dir));
@@ -232,7 +232,7 @@ pub fn execute(plan: Plan, tier: &str, seed: i64, verif_dir: &str) -> i32 {
     // replay artefacts
     let mut printed = BTreeSet::new();
     let mut out_lines = vec![];
-    let rdir = format!("{}/replays/{}", verif_dir, prop);
+    let rdir = format!("{}/replays/{}", out_dir, prop);
     for v in &new_violations {
         let key = format!("{}|{}", v.scenario, v.sig);
         if !printed.insert(key.clone()) {
@@ -275,8 +275,8 @@ pub fn execute(plan: Plan, tier: &str, seed: i64, verif_dir: &str) -> i32 {
         "wall_s": wall,
         "violations": new_violations.len(),
     });
-    let _ = std::fs::create_dir_all(format!("{}/evidence", verif_dir));
-    let evp = format!("{}/evidence/{}.json", verif_dir, prop);
+    let _ = std::fs::create_dir_all(format!("{}/evidence", out_dir));
+    let evp = format!("{}/evidence/{}.json", out_dir, prop);
     if let Err(e) = std::fs::write(&evp, serde_json::to_string_pretty(&ev).unwrap()) {
         eprintln!("MACHINERY: cannot write evidence {}: {}", evp, e);
         return 2;
